@@ -254,6 +254,10 @@ func List(tier string) []Scenario {
 		out = append(out, regexScenario("1", "1", capacity), regexScenario("1", "2+", capacity), regexScenario("(1", "1", capacity))
 	}
 	out = append(out, poolScenario("normalize-space(.)", "concat(a, b, //@x)"), poolScenario("normalize-space(//b)", "normalize-space(.)"), poolScenario("concat(*, '-')", "concat('x', .)"))
+	// three threads inside the pooled string builders at once
+	for _, s := range []string{"concat(a, b)", "normalize-space(.)", "concat(concat(a, '-'), normalize-space(b))"} {
+		out = append(out, exprScenario("pool3", s, []string{"evaluate", "evaluate", "evaluate"}, []int{1, 3, 0}))
+	}
 	cacheKeys := [][][]string{
 		{{"k1"}, {"k1"}}, {{"k1"}, {"k2"}}, {{"k1", "k2"}, {"k2", "k1"}}, {{"k1", "k1"}, {"k2"}}, {{"bad"}, {"k1"}}, {{"bad", "k1"}, {"k1", "bad"}}, {{"k1", "k3"}, {"k2", "k1"}},
 	}
